@@ -17,7 +17,8 @@ Clauses of the property and the theorems that carry them
   (d) saturated treatment + missingness models: IPTW and TMLE standardize the observed-outcome stratum means
       over the covariates of all retained rows
         `iptw_missing_saturated`, `std_missing_form`, `gformula_predict_missing`;
-        TMLE: `tmle_plugin_missing_partial` (PARTIAL, see there) + gate D of the check
+        TMLE: `tmle_missing_saturated` (full statement, via `P02.tmle_dr_treatment`); `tmle_plugin_missing_partial` is the
+        earlier, weaker form kept for reference
   (e) effect-measure classes ignore and count rows missing exposure or outcome
         `measures_ignore_and_count` (corollary of the C07 theorems `crosstab_filter`, `missing_counts`)
 AIPTW with missing outcomes is deliberately not claimed to standardize (it does not, and the property does
@@ -26,6 +27,7 @@ not say it does).
 import ZepidVerif.Lemmas.Missing
 import ZepidVerif.Props.C01
 import ZepidVerif.Props.C07
+import ZepidVerif.Props.C02
 set_option linter.unusedSectionVars false
 set_option linter.unusedVariables false
 namespace ZV.P10
@@ -157,6 +159,24 @@ theorem tmle_plugin_missing_partial (rows : List (Raw F)) (S : List Nat)
     (Qstar : Nat → Bool → F) (hQ : OutFit (checkInput false rows) S Qstar) (a : Bool) :
     gformula (checkInput false rows) (fun r => Qstar r.s) Tgt.pop.mem a = std (checkInput false rows) S Tgt.pop.mem a :=
   gformula_of_outfit _ S hS hpos Qstar hQ _ a
+
+/-- **(d), TMLE, full statement** (added once `Model/Tmle.lean` was in the tree): on the rows `check_input_data`
+    retains (missing outcomes kept), with saturated treatment and missingness models, *any* initial outcome
+    predictions (functions of stratum and arm) and fluctuation coefficients solving the efficient score equations,
+    TMLE's plug-in risks are the observed-outcome cell means standardized over the covariates of ALL retained rows.
+    This is `P02.tmle_dr_treatment` applied to the checked data (TMLE takes no frequency weights). -/
+theorem tmle_missing_saturated (σ lg : F → F) (rows : List (Raw F)) (S : List Nat)
+    (hS : Strata (checkInput false rows) S) (hpos : Positivity (checkInput false rows) S)
+    (hw : ∀ r ∈ checkInput false rows, r.w = 1) (Q : Nat → Bool → F)
+    (p : Nat → F) (hp : PropFit (checkInput false rows) S p)
+    (q : Nat → Bool → F) (hq : MissFit (checkInput false rows) S q) (e1 e2 : F) :
+    let l := checkInput false rows
+    let g1 := fun s => p s * q s true
+    let g0 := fun s => (1 - p s) * q s false
+    Tmle.eff1 σ lg e1 (l.map (toT Q g1 g0)) = 0 → Tmle.eff0 σ lg e2 (l.map (toT Q g1 g0)) = 0 →
+    Tmle.risk1Of (Tmle.targets σ lg e1 e2 (l.map (toT Q g1 g0))) = std l S Tgt.pop.mem true ∧
+    Tmle.risk0Of (Tmle.targets σ lg e1 e2 (l.map (toT Q g1 g0))) = std l S Tgt.pop.mem false :=
+  P02.tmle_dr_treatment σ lg (checkInput false rows) S hS hpos hw Q p hp q hq e1 e2
 
 /-- **(e)** effect-measure classes (RiskRatio, RiskDifference, NNT, OddsRatio, IncidenceRate*): the
     cross-tabulation ignores rows missing exposure or outcome, and the three counters `_missing_e`,
